@@ -48,8 +48,8 @@ def edit_obl(mode, nf, nd, nc, ks, kl, cn, rot, mask=31, focus=0, symp=0, tier="
                flags=["--max-field-sensitivity-array-size", str(max(slab, outcap) + 1)],
                unwind=12 + (cn + 1 if cn > 10 else 0),
                unwindset={"vp_expect_bytes.0": outcap + 1,
-                          "ref_put_byte.0": 9 * bin(focus & 0x3ff).count("1") + 4 * bin(focus >> 10).count("1") + 2, "ref_decode.0": max(nfields, 1),
-                          "ldb_edit_import.0": max(nfields, 1)},
+                          "ref_put_byte.0": 9 * bin(focus & 0x3ff).count("1") + 4 * bin(focus >> 10).count("1") + 2, "ref_decode.0": nfields + 1,
+                          "ldb_edit_import.0": nfields + 1},
                timeout=600, tier=tier, functions=EDIT_FUNCS, desc=what,
                bounds="%d new files, %d deleted files, %d compact pointers, keys %d/%d bytes, comparator name %d bytes; "
                       "scalar fields symbolic present/absent, levels 0..6; every 64-bit number symbolic inside the varint "
@@ -74,7 +74,7 @@ EDIT_CONFIGS = [
     (0, 0, 0, 8, 8, 26, 8, 31, 0, 0, 0),
     # deleted files
     (0, 1, 0, 8, 8, 0, 0, 0, (1 << 4) | (1 << 11), 0, 0),
-    (0, 2, 0, 8, 8, 0, 3, 0, (1 << 5) | (1 << 12), 0, 0),
+    (0, 2, 0, 8, 8, 0, 3, 0, 1 << 12, 0, 0),
     (0, 2, 0, 8, 8, 0, 5, 2, 0, 0, 0),
     # compact pointer
     (0, 0, 1, 8, 8, 0, 1, 0, 1 << 10, 0, 0),
@@ -101,14 +101,13 @@ DECODE_CONFIGS = [
     (0, 0, 0, 8, 8, 0, 1, 4, 1 << 1, 0, 0),
     (0, 0, 0, 8, 8, 0, 2, 8, 1 << 2, 0, 0),
     (0, 0, 0, 8, 8, 0, 3, 16, 1 << 3, 0, 0),
-    (0, 0, 0, 8, 8, 2, 5, 3, 1 << 0, 0, 0),
     (0, 0, 0, 8, 8, 3, 4, 1, 0, 0, 1),
     (0, 0, 0, 8, 8, 0, 5, 0, 0, 0, 0),
     (0, 0, 0, 8, 8, 4, 6, 21, 0, 0, 0),
     (0, 0, 0, 8, 8, 2, 7, 10, 0, 0, 0),
     (0, 0, 0, 8, 8, 26, 8, 31, 0, 0, 0),
     (0, 1, 0, 8, 8, 0, 0, 0, (1 << 4) | (1 << 11), 0, 0),
-    (0, 2, 0, 8, 8, 0, 3, 0, (1 << 5) | (1 << 12), 0, 0),
+    (0, 2, 0, 8, 8, 0, 3, 0, 0, 0, 0),
     (0, 2, 0, 8, 8, 0, 5, 2, 0, 0, 0),
     (0, 0, 1, 8, 8, 0, 1, 0, 1 << 10, 0, 0),
     (0, 0, 1, 8, 9, 0, 2, 0, 1 << 10, 0, 0),
@@ -116,7 +115,7 @@ DECODE_CONFIGS = [
     (1, 0, 0, 8, 9, 0, 0, 0, 1 << 6, 0, 0),
     (1, 0, 0, 9, 10, 0, 5, 0, 1 << 7, 0, 0),
     (1, 0, 0, 10, 8, 0, 7, 0, 1 << 13, 0, 0),
-    (2, 0, 0, 8, 9, 0, 9, 0, (1 << 8) | (1 << 14), 0, 0),
+    (2, 0, 0, 8, 9, 0, 9, 0, 1 << 9, 0, 0),
     (2, 2, 1, 9, 10, 3, 0, 31, 0, 0, 0),
     (2, 2, 1, 8, 9, 3, 4, 31, 0, 0, 0),
     (2, 2, 1, 10, 8, 3, 8, 29, 0, 0, 0),
@@ -138,6 +137,27 @@ for mode in (2, 3):
     for c in DECODE_CONFIGS:
         OBLIGATIONS.append(edit_cfg(mode, c))
 OBLIGATIONS.append(edit_cfg(4, (1, 1, 1, 8, 8, 2, 2, 31, 0, 0, 0)))
+
+# ---- f: CURRENT ----
+OBLIGATIONS.append(Obl("f.encode-int-all-values", "C17/current.c",
+                       real=["filename.c", "util/strutil.c", "util/slice.c"],
+                       kit=["vp_nondet.c", "vp_mem.c", "vp_sprintf.c"],
+                       defs={"VP_MODE": 1}, unwind=24, timeout=600,
+                       functions=["ldb_encode_int", "ldb_size_int"],
+                       desc="ldb_encode_int(x, pad 6) == reference zero-padded decimal for every 64-bit x",
+                       bounds="all 64-bit values"))
+for d, tier in ((6, "quick"), (7, "quick"), (10, "quick"), (20, "quick"), (8, "thorough"), (13, "thorough"), (19, "thorough")):
+    OBLIGATIONS.append(Obl("f.set-current-file-D%d" % d, "C17/current.c",
+                           real=["filename.c", "util/strutil.c", "util/slice.c"],
+                           kit=["vp_nondet.c", "vp_mem.c", "vp_sprintf.c"],
+                           defs={"VP_DIGITS": d}, unwind=50,
+                           replace_calls=["ldb_encode_int:vp_encode_int"],
+                           timeout=600, tier=tier,
+                           functions=["ldb_set_current_file", "ldb_temp_filename", "ldb_current_filename",
+                                      "ldb_join", "ldb_slice_set_str", "make_filename"],
+                           desc="temp <db>/NNNNNN.dbtmp written with 'MANIFEST-NNNNNN\\n' and should_sync=1, then renamed to CURRENT; "
+                                "any failure: temp removed, error returned; CURRENT never written/removed directly",
+                           bounds="descriptor number: every value with %s decimal digits (> 0); each env call fails or not, any code; db name fixed" % ("<= 6" if d == 6 else d)))
 
 META = {
     "level": "model_checking",
